@@ -96,7 +96,7 @@ func (t *Table) ToMarkdown() string {
 	// Header row
 	for j, cell := range t.Rows[0] {
 		sb.WriteString("| ")
-		sb.WriteString(strings.ReplaceAll(cell.Text, "\n", " "))
+		sb.WriteString(strings.ReplaceAll(strings.ReplaceAll(cell.Text, "\n", " "), "|", "\\|"))
 		sb.WriteString(" ")
 		if j == len(t.Rows[0])-1 {
 			sb.WriteString("|")
@@ -117,7 +117,7 @@ func (t *Table) ToMarkdown() string {
 	for i := 1; i < len(t.Rows); i++ {
 		for j, cell := range t.Rows[i] {
 			sb.WriteString("| ")
-			sb.WriteString(strings.ReplaceAll(cell.Text, "\n", " "))
+			sb.WriteString(strings.ReplaceAll(strings.ReplaceAll(cell.Text, "\n", " "), "|", "\\|"))
 			sb.WriteString(" ")
 			if j == len(t.Rows[i])-1 {
 				sb.WriteString("|")
